@@ -78,6 +78,8 @@ class CallMixin:
             return self.lift_py_object(mod.py.__dict__[name], name)
         if name in ("True", "False", "None"):
             return lift({"True": True, "False": False, "None": None}[name])
+        if name == "__file__" and not getattr(mod, "is_spec", False):
+            return lift(mod.relpath)  # the module's path relative to the repository root
         if name == "__name__" and getattr(mod, "relpath", "").endswith(".py"):
             return lift(mod.relpath[:-3].replace("/", "."))
         if hasattr(_bi, name):
@@ -1089,6 +1091,10 @@ class CallMixin:
                 ci = self.class_of_rec(v)
                 if ci is not None and isinstance(c.info, ClassInfo):
                     return z3.BoolVal(any(k.key == c.info.key for k in ci.mro(self.repo)))
+                if ci is None and v.ty.as_dict and isinstance(c.info, ClassInfo) \
+                        and not any(ast.unparse(b).split("[")[0].split(".")[-1] in ("dict", "Dict", "OrderedDict", "TypedDict", "Mapping", "MutableMapping")
+                                    for k in c.info.mro(self.repo) for b in k.bases):
+                    return z3.BoolVal(False)  # a plain dict is never an instance of a repo class that is not a mapping
             if isinstance(v, VExc):
                 from .ex import exc_is
                 return z3.BoolVal(exc_is(v.cls, c.info if isinstance(c.info, str) else c.info.name))
@@ -1520,6 +1526,10 @@ class CallMixin:
             r = f(s.t)
             if name in ("lower", "upper", "strip", "lstrip", "rstrip", "casefold"):
                 self.assume(f(r) == r)  # idempotent
+            if name == "rstrip":
+                self.assume(z3.PrefixOf(r, s.t))  # only trailing characters are removed
+            if name == "lstrip":
+                self.assume(z3.SuffixOf(r, s.t))  # only leading characters are removed
             if name in ("strip", "lstrip", "rstrip"):
                 self.assume(z3.Contains(s.t, r))
                 self.assume(z3.Length(r) <= z3.Length(s.t))
@@ -1611,6 +1621,15 @@ class CallMixin:
     def list_method(self, lst: VList, name, args, kwargs, lineno):
         if getattr(lst, "assoc", False) and name == "items":
             return lst
+        if getattr(lst, "assoc", False) and name in ("values", "keys") and lst.seq is not None:
+            # d.values() / d.keys() of an association list: the projection of every pair (generated map function)
+            elem = lst.elem
+            x = z3.Const(f"cx!assoc_{name}_{elem.name}", elem.sort())
+            xv = elem.wrap(x)
+            part = xv.items[1 if name == "values" else 0]
+            oty = elem.elems[1 if name == "values" else 0]
+            f, caps = self._gen_recfun("mapfilter", elem, x, [oty.pack(part), z3.BoolVal(True)], oty)
+            return VList(oty, seq=f(lst.seq, *caps))
         if getattr(lst, "is_set", False):
             if name != "add":
                 raise Unsupported(f"set.{name}()")
@@ -1738,6 +1757,10 @@ class CallMixin:
             return VNone()
         if name == "update":
             raise Unsupported("dict.update on symbolic dict")
+        if name == "keys" and not args:
+            # the key list of a symbolic dict: an uninterpreted view (nothing is assumed about which keys it contains)
+            self.ufs_used.add("dict_keys (key list of a dict: uninterpreted)")
+            return VList(Str, seq=z3.Function("uf.dict_keys", Dict.sort(), z3.SeqSort(z3.StringSort()))(d.t))
         if name in ("items", "keys", "values"):
             raise Unsupported(f"iteration over a symbolic dict (.{name}()): give the function a contract with an explicit key set")
         if name == "pop":
